@@ -79,6 +79,7 @@ func (r *runner) publishDecoy() {
 	r.decoyN++
 	_, _ = r.b.Publish(bg, r.decoy, "d", centrifuge.MapPublishOptions{Data: []byte("0")})
 	r.rec.take(r.decoy)
+	time.Sleep(2500 * time.Microsecond) // its 1 ms TTL has passed before the next sweep can start
 }
 
 func (r *runner) startSweep(si int) bool {
@@ -275,9 +276,6 @@ func (r *runner) run(beh []map[string]any) (completed int) {
 				got = doRemove(r.b, r.ch, args, r.ep, r.tick)
 			}
 			h := r.rec.take(r.ch)
-			if r.manual && r.sweeping {
-				// broadcasts of this operation only (the sweep is parked)
-			}
 			if r.late(now) {
 				r.res.Count("skipped_late", 1)
 				return 0
@@ -519,8 +517,8 @@ func replayManual(in json.RawMessage, res *vh.Result) error {
 	if err := json.Unmarshal(in, &behs); err != nil {
 		return err
 	}
-	tick := 160 * time.Millisecond
-	sem := make(chan struct{}, 24)
+	tick := 250 * time.Millisecond
+	sem := make(chan struct{}, 48)
 	var wg sync.WaitGroup
 	for bi, beh := range behs {
 		wg.Add(1)
